@@ -40,7 +40,9 @@ Definition run_ok (c : case04) (r : run04) : bool :=
         q4_close (eps40 * (1 + q4_maxabs m)) m (r_m r) && q2_close (eps36 * B) (of_pt (ash (g_aff st))) (r_t r)))
   end.
 (* the model values of two equivalent histories: exactly equal when no reference-plane correction is involved; with
-   reference-plane corrections the recorded probe points of the runs differ by rounding, hence 2^-40 / 2^-36 B *)
+   reference-plane corrections the recorded probe points of the runs differ by rounding, hence 2^-26 / 2^-22 B *)
+Definition eps26 : Q := 1 # 67108864.
+Definition eps22 : Q := 1 # 4194304.
 Definition has_ref (r : run04) : bool := existsb (fun h => match h with HSetRef _ _ _ _ _ => true | _ => false end) (r_ops r).
 Definition same_model (c : case04) (r0 r : run04) : bool :=
   match model04 c r0, model04 c r with
@@ -48,8 +50,10 @@ Definition same_model (c : case04) (r0 r : run04) : bool :=
       fname_list_eqb (frames (g_wcs a)) (frames (g_wcs b)) &&
       (if has_ref r0 then
          let m := of_mat (amat (g_aff a)) in
-         q4_close (eps40 * (1 + q4_maxabs m)) m (of_mat (amat (g_aff b))) &&
-         q2_close (eps36 * bound04 (c4_k c) (r_ops r0)) (of_pt (ash (g_aff a))) (of_pt (ash (g_aff b)))
+         (* _tp2tp differentiates numerically (relative noise ~1e-9, amplified by large shifts): two equivalent
+            histories whose states before a reference-plane step differ by rounding agree to 2^-26 only *)
+         q4_close (eps26 * (1 + q4_maxabs m)) m (of_mat (amat (g_aff b))) &&
+         q2_close (eps22 * bound04 (c4_k c) (r_ops r0)) (of_pt (ash (g_aff a))) (of_pt (ash (g_aff b)))
        else aff_eqb (g_aff a) (g_aff b))
   | _, _ => false
   end.
